@@ -160,6 +160,22 @@ impl Iterator for Hinted {
 	}
 }
 
+/// `items` behind an iterator type chosen by the request: the collection is the same, what the callee can learn
+/// from `size_hint` (and which adaptor type it sees) differs.
+pub fn hinted<'a>(items: &'a [u64], hint: Option<&str>) -> Box<dyn Iterator<Item = u64> + 'a> {
+	let n = items.len();
+	match hint {
+		None | Some("slice") => Box::new(items.iter().copied()),
+		Some("vec") => Box::new(items.to_vec().into_iter()),
+		Some("exact") => Box::new(Hinted { items: items.to_vec().into_iter(), lo: n, hi: Some(n) }),
+		Some("lower") => Box::new(Hinted { items: items.to_vec().into_iter(), lo: n / 2, hi: Some(n + 3) }),
+		Some("upper") => Box::new(Hinted { items: items.to_vec().into_iter(), lo: 0, hi: Some(n) }),
+		Some("filter") => Box::new(items.iter().copied().filter(|_| true)),
+		Some("chain") => Box::new(items[..n / 2].iter().copied().chain(items[n / 2..].iter().copied().filter(|_| true))),
+		_ => Box::new(Hinted { items: items.to_vec().into_iter(), lo: 0, hi: None }),
+	}
+}
+
 pub fn single(req: &Req) -> R<String> {
 	let items = req.list_u64("items")?;
 	let words = req.list_u64("words")?;
@@ -184,7 +200,13 @@ pub fn multi(req: &Req) -> R<String> {
 	let items = req.list_u64("items")?;
 	let mut buf = req.list_u64("buf")?;
 	let words = req.list_u64("words")?;
-	Ok(match with_mock(&words, |r| r.multiple(items.iter().copied(), &mut buf[..])) {
+	let hint = req.opt("hint");
+	let r = match hint {
+		None => with_mock(&words, |r| r.multiple(items.iter().copied(), &mut buf[..])),
+		Some("filter") => with_mock(&words, |r| r.multiple(items.iter().copied().filter(|_| true), &mut buf[..])),
+		h => with_mock(&words, |r| r.multiple(hinted(&items, h), &mut buf[..])),
+	};
+	Ok(match r {
 		Some((cnt, c)) => format!("ok:{}:{}:{}", cnt, join(&buf, ","), c),
 		None => "panic".into(),
 	})
